@@ -25,10 +25,15 @@ list); there is no `partial`, no fuel that can run out (the only fuel, `bitLen 3
 `u32`) and `check.py` rejects `partial` / `unsafe` / `implemented_by` in every model file.  So "fails to
 terminate" has no counterpart in the model; for the implementation it is the watchdog of the tie.
 
-NOT modelled for totality (exercised by the tie only, on both build profiles): the per-pixel / per-block
-codec bodies (`bc*.rs`, `bc6.rs`, `bc7.rs`, `uncompressed.rs`, `sub_sampled.rs`, `bi_planar.rs` conversion
-arithmetic on fixed-size arrays with literal indices and saturating casts), `convert_channels_for`, the
-external `astc-decode` crate, and `std` (`read_exact`, `io::copy`, `Vec::try_reserve_exact`).
+Section 6 (codec bodies): `bc1to5_bodies_trapfree`, `bc7_body_trapfree`, `bc6_body_trapfree`,
+`uncompressed_bodies_trapfree`, `subsampled_biplanar_bodies_trapfree`, `channel_conversion_trapfree`,
+`pixel_loop_wrappers_trapfree` — trapping mirrors (`Trap*.lean`) of the per-block / per-pixel bodies return `some`
+of the wrapping models' values for every input.
+
+NOT modelled for totality (exercised by the tie only, on both build profiles): the external `astc-decode` crate,
+the slicing inside the generic block / plane loops of `read_write.rs` beyond C05's address theorems, and `std`
+(`read_exact`, `io::copy`, `Vec::try_reserve_exact`).  That `f32` arithmetic and float → integer casts never panic
+is a fact about Rust that the mirrors assume.
 -/
 import DdsModel.Proofs.C01
 import DdsModel.Proofs.ReaderRefinesRun
@@ -808,6 +813,27 @@ theorem channel_conversion_trapfree (src dst : Unc.Channels) (size n : Nat) (hs 
 example :
     TrapUnc.convertChannelsT .rgb .rgba 2 12 16 = some () ∧ TrapUnc.convertChannelsT .rgb .rgba 2 12 15 = none ∧
     TrapUnc.convertChannelsT .rgb .rgba 2 12 24 = none ∧ TrapUnc.convertChannelsT .rgba .rgba 4 32 16 = none := by
+  decide +kernel
+
+/-- **The pixel-loop wrappers around the bodies** (`process_pixels_helper`, `process_pixels_helper_unroll` of
+`src/decode/read_write.rs`, the specialised `B8G8R8A8_UNORM` swap loop of `uncompressed.rs:193`), on the lengths they
+are called with (`n` pixels on both sides; the callers' slicing is C05 / `decode_addresses_in_view`): the
+`expect("Invalid input buffer")` / `expect("Invalid output buffer")` succeed for any non-empty pixel types and `n`
+pixels are processed; the unrolled variant (`UNROLL = 4`, `u16 → u16` and `u16 → f32`: the only two instantiations)
+slices inside both buffers, its `usize` products do not overflow and `debug_assert!(encoded.len() == decoded.len())`
+holds for the rest; `out.swap(i, i + 2)` stays inside a row of whole RGBA pixels. -/
+theorem pixel_loop_wrappers_trapfree :
+    (∀ a b n, 0 < a → 0 < b → TrapUnc.processPixelsT a b (n * a) (n * b) = some n) ∧
+    (∀ b n, (b = 2 ∨ b = 4) → n < 2 ^ 60 → TrapUnc.processPixelsUnrollT 4 2 b (n * 2) (n * b) = some ()) ∧
+    (∀ n, TrapUnc.bgraSwapT (4 * n) = some ()) :=
+  ⟨TrapUnc.processPixelsT_eq, TrapUnc.processPixelsUnrollT_eq, TrapUnc.bgraSwapT_eq⟩
+
+/-- non-vacuity: 7 half pixels (one unrolled chunk of 4 + a rest of 3) pass; a ragged input, an output that is too
+short for the unrolled chunk, and a BGRA row of 6 bytes trap -/
+example :
+    TrapUnc.processPixelsUnrollT 4 2 4 14 28 = some () ∧ TrapUnc.processPixelsUnrollT 4 2 4 13 28 = none ∧
+    TrapUnc.processPixelsUnrollT 4 2 4 14 12 = none ∧ TrapUnc.processPixelsT 2 4 14 28 = some 7 ∧
+    TrapUnc.bgraSwapT 8 = some () ∧ TrapUnc.bgraSwapT 6 = none := by
   decide +kernel
 
 end Dds.C01
